@@ -23,6 +23,8 @@ func typeRelName(p *Program, t types.Type) string {
 		return o.Pkg().Name() + "." + o.Name()
 	case *types.Pointer:
 		return "*" + typeRelName(p, t.Elem())
+	case *types.Slice:
+		return "[]" + typeRelName(p, t.Elem())
 	}
 	return t.String()
 }
@@ -101,6 +103,11 @@ func (x *Exec) calleeSpec(c *ssa.CallCommon, fr *Frame) *FuncSpec {
 		return nil
 	case *ssa.Function:
 		if f.Pkg == x.prog.spkg || (f.Pkg == nil && f.Parent() != nil) {
+			if v := x.variantKey(c); v != "" {
+				if vs := x.prog.spec.Funcs[x.prog.relName(f)+"["+v+"]"]; vs != nil {
+					return vs
+				}
+			}
 			if fs := x.prog.spec.Funcs[x.prog.relName(f)]; fs != nil {
 				return fs
 			}
@@ -343,6 +350,14 @@ func (x *Exec) callFunction(st *State, f *ssa.Function, bindings []Val, args []V
 	var fs *FuncSpec
 	if inPkg {
 		fs = x.prog.spec.Funcs[name]
+		if x.curCall != nil {
+			if v := x.variantKey(x.curCall); v != "" {
+				if vs := x.prog.spec.Funcs[name+"["+v+"]"]; vs != nil {
+					fs = vs
+					name = name + "[" + v + "]"
+				}
+			}
+		}
 	} else {
 		fs = x.prog.spec.Externs[f.String()]
 		if x.curCall != nil {
@@ -432,12 +447,11 @@ func (x *Exec) builtin(st *State, f *ssa.Builtin, c *ssa.CallCommon, args []Val,
 		st1 := s1.T.Underlying().(*types.Slice)
 		obj := st.newObject()
 		nl := "(+ " + s1.L[2] + " " + s2.L[2] + ")"
-		// contents: only a single appended element is tracked precisely
-		if s2.L[2] == "1" || s2.L[2] == "(- 1 0)" {
-			ev := st.loadVal(extendIdx(s2.L[0], s2.L[1]), st1.Elem())
-			st.storeVal(extendIdx(obj, s1.L[2]), ev)
-		}
-		x.notes = append(x.notes, "append modelled as allocation of a fresh backing array; earlier elements not tracked")
+		// contents: element j of the result equals element j of the first slice
+		// (j < len1) or element j-len1 of the appended one; instantiated lazily
+		// at every later read of an element of the result (state.go, copyAxiom)
+		x.appendInfo[obj] = &appendRec{s1: [3]Term{s1.L[0], s1.L[1], s1.L[2]}, s2: [3]Term{s2.L[0], s2.L[1], s2.L[2]}, snap: st.snap(), elem: st1.Elem()}
+		x.notes = append(x.notes, "append allocates a fresh backing array (aliasing through spare capacity is not modelled)")
 		return Val{T: rt, L: []Term{obj, "0", nl}}
 	case "delete":
 		x.mapDelete(st, args[0], args[1], describe(c.Args[0]), pos)
